@@ -145,16 +145,19 @@ def run_case(ctx, st, rng, key, wrong_key, key_id):
     if s["tamper"] == "aad":
         gaad = b"ESXConfiguratioN" if aad else b"unexpected"
     gkey = key if g["key"] == "right" else wrong_key
-    # the state is the end of the second attempt on the same object: st["first"] is the specified outcome of the first
-    # attempt (with `given`), st["phase"] that of the second one (right key, the associated data it was sealed with)
+    # the state is the end of the third attempt on the same object: st["first"] is the specified outcome of the first
+    # attempt (with `given`), st["second"] that of the second one (right key, the associated data it was sealed with),
+    # st["phase"] that of the third (st["third"]: a wrong key, or other associated data)
     attrs_v = {"len": s["len"], "tamper": s["tamper"], "key": g["key"], "given_aad": g["aad"], "sealed_aad": s["aad"], "fill": s.get("fill", "slack")}
-    det = {"state": {"sealed": s, "given": g, "spec_first": st["first"], "spec_second": st["phase"]}, "attr_names": [a[1] for a in attrs], "padding": info["padding"]}
+    det = {"state": {"sealed": s, "given": g, "spec_first": st["first"], "spec_second": st["second"], "third": st["third"], "spec_third": st["phase"]}, "attr_names": [a[1] for a in attrs], "padding": info["padding"]}
     try:
         env = Envelope(io.BytesIO(blob))
     except Exception as e:  # noqa: BLE001
         env = None
         det["error"] = f"{type(e).__name__}: {e}"[:200]
-    for attempt, want_phase, k_, a_ in ((1, st["first"], gkey, gaad), (2, st["phase"], key, (b"ESXConfiguratioN" if aad else b"unexpected") if s["tamper"] == "aad" else aad)):
+    aad2 = (b"ESXConfiguratioN" if aad else b"unexpected") if s["tamper"] == "aad" else aad
+    third = (3, st["phase"], wrong_key, aad2) if st["third"] == "wrong-key" else (3, st["phase"], key, b"SomethingElse")
+    for attempt, want_phase, k_, a_ in ((1, st["first"], gkey, gaad), (2, st["second"], key, aad2), third):
         want_ok = want_phase == "returned"
         got, ok = None, False
         if env is not None:
@@ -329,7 +332,7 @@ def run(ctx):
                        "re-serialises the header: zero padding, the unused size field and reserved record bytes are outside the property)"]
     diskprop.tlc_check(ctx, "Envelope", "Envelope.cfg", min_states=1000, need_actions=("DecryptVerify",))
     rd = tlc.run("Envelope", "Envelope.cfg", dump=True)
-    sts = [s for s in tlaparse.iter_dump(rd.dump) if s["phase"] in ("returned", "failed") and s["attempt"] == 2]
+    sts = [s for s in tlaparse.iter_dump(rd.dump) if s["phase"] in ("returned", "failed") and s["attempt"] == 3]
     tlc.cleanup(rd)
     kid, d1, d2, key = keystore_cases(ctx, rng)
     key_text = E.keystore_text(kid, d1, d2)
@@ -338,7 +341,7 @@ def run(ctx):
         big = [s for s in sts if s["sealed"]["len"] == "big"]
         multi = [s for s in sts if s["sealed"]["len"] == "multi"]
         sts = [s for s in sts if s["sealed"]["len"] not in ("big", "multi")]
-        sts = rng.sample(sts, 900) + rng.sample(big, 12) + rng.sample([s for s in multi if s["phase"] == "returned"], 6) + rng.sample(multi, 6)
+        sts = rng.sample(sts, 900) + rng.sample(big, 12) + rng.sample([s for s in multi if s["second"] == "returned"], 6) + rng.sample(multi, 6)
     else:
         big = [s for s in sts if s["sealed"]["len"] == "big"]
         multi = [s for s in sts if s["sealed"]["len"] == "multi"]
